@@ -3,6 +3,7 @@ package drv
 import (
 	"fmt"
 	"math/rand"
+	"net"
 	"regexp"
 	"strconv"
 	"strings"
@@ -130,6 +131,53 @@ func (i *Inst) RunTeardown(s *TdScript, tw *TraceWriter, rng *rand.Rand) error {
 			t.SendRaw(tsgu.Data(uint16(len(pl)), pl))
 		}
 	}
+	// the client has stopped reading while the host keeps sending: the relay ends up inside Tunnel.Write, holding the
+	// writer lock, blocked on the full socket - and stays there until that client connection ends
+	if hadHost && s.Inflight == "stalled" {
+		stopSend := make(chan struct{})
+		defer close(stopSend)
+		go func() {
+			buf := make([]byte, 1<<16)
+			for {
+				select {
+				case <-stopSend:
+					return
+				default:
+				}
+				if bc.Send(buf) != nil {
+					return
+				}
+			}
+		}()
+		relayWrites := func() (begins, ends int) {
+			for _, e := range p.Since(start) {
+				if e.Cid == t.Cid && e.Role == "relay" {
+					switch e.Pt {
+					case "tun.write.begin":
+						begins++
+					case "tun.write.end":
+						ends++
+					}
+				}
+			}
+			return
+		}
+		blocked := false
+		lastEnds, since := -1, time.Now()
+		for limit := time.Now().Add(20 * time.Second); time.Now().Before(limit); {
+			b, e := relayWrites()
+			if e != lastEnds {
+				lastEnds, since = e, time.Now()
+			} else if b == e+1 && time.Since(since) > 250*time.Millisecond {
+				blocked = true
+				break
+			}
+			time.Sleep(20 * time.Millisecond)
+		}
+		if !blocked {
+			return fmt.Errorf("the relay did not block in its write to a client that does not read (stalled scenario could not be set up)")
+		}
+	}
 	// the cause
 	closedByClient := map[string]bool{}
 	switch {
@@ -143,6 +191,19 @@ func (i *Inst) RunTeardown(s *TdScript, tw *TraceWriter, rng *rand.Rand) error {
 		}
 	case s.Cause == "unframeable":
 		t.SendRaw(tsgu.Header(tsgu.PktData, 3))
+	case strings.HasPrefix(s.Cause, "shut:"):
+		// half close: the client sends FIN on the connection it writes on and keeps the socket open
+		var c net.Conn
+		if s.Cause[5:] == "ws" && t.WS != nil {
+			c = t.WS.C
+		} else if s.Cause[5:] == "in" && t.In != nil {
+			c = t.In.C
+		}
+		if tc, ok := c.(*net.TCPConn); ok {
+			tc.CloseWrite()
+		} else {
+			return fmt.Errorf("cause %q needs a plain TCP connection", s.Cause)
+		}
 	case strings.HasPrefix(s.Cause, "fin:") || strings.HasPrefix(s.Cause, "rst:"):
 		which := s.Cause[4:]
 		rst := strings.HasPrefix(s.Cause, "rst:")
@@ -230,7 +291,11 @@ func (i *Inst) RunTeardown(s *TdScript, tw *TraceWriter, rng *rand.Rand) error {
 			panicked = true
 		}
 	}
-	tw.Line(M{"ev": "teardown", "script": s.ID, "transport": s.Transport, "point": s.Point, "cause": s.Cause, "inflight": s.Inflight, "hadHost": hadHost,
+	causeLabel := s.Cause
+	if s.Inflight == "stalled" {
+		causeLabel += "@stalled"
+	}
+	tw.Line(M{"ev": "teardown", "script": s.ID, "transport": s.Transport, "point": s.Point, "cause": causeLabel, "inflight": s.Inflight, "hadHost": hadHost,
 		"hostClosed": hostClosed, "connsClosed": connsClosed, "loopExited": loopIdx >= 0, "relayDone": relayDone, "unregistered": unregIdx >= 0,
 		"gaugesBack": gaugesBack, "goroutinesBack": goroutinesBack, "panicked": panicked, "ms": int(time.Since(t0) / time.Millisecond)})
 	// leave the instance clean for the next script: force everything shut
